@@ -24,7 +24,7 @@ P = {
  "C11": ("every trap routine called with every string/queue/register preset of a bounded alphabet; outputs, consumed input and preserved state compared with the documented contract",
          "bounded-exhaustive input enumeration", "strings <=3-4 symbols over a boundary alphabet"),
  "C12": ("every program of the bounded family run under virtual and real traps; halting and faulting runs compared per the property", "paired-run enumeration over a bounded program family", "program family bounded; horizon-ended runs are counted, not judged"),
- "C13": ("explicit-state BFS over histories of run/step/breakpoint/MCR operations on the real simulator, each operation compared with a twin driven only by step_in and the documented stop rules; states deduplicated by an implementation fingerprint",
+ "C13": ("explicit-state BFS over histories of run/step/breakpoint/MCR operations on the real simulator, each operation compared with a twin driven only by step_in and the documented stop rules; states deduplicated by an implementation fingerprint; plus exhaustive comparator-breakpoint and MCR-word families (the program's own store to xFFFE: stop decided from bit 15 of the stored word)",
          "explicit-state BFS over operation histories + step-wise reference executor", "8 programs (two under real traps raising exceptions; +1 deep-recursion program on fixed histories); 24 operations; depth <=5 quick/8 thorough; plus a comparator family (8 comparators x 8 operands x register/memory x 4 run styles)"),
  "C14": ("paired strict/non-strict runs from identical Known-initialised machines over the bounded program family and targeted jump/IO/blkw/stack programs; plus fully-initialised machines", "paired-run enumeration", "bounded program family"),
  "C15": ("per-bit truth tables for AND/NOT (complete) and all completions of uninitialised bits over mask/base grids for ADD/SUB/AND/NOT; fully-initialised operands over boundary x all (quick) or all 2^32 pairs (thorough)",
